@@ -4,6 +4,7 @@ import (
 	"go/ast"
 	"go/token"
 	"go/types"
+	"sort"
 )
 
 // ---------------------------------------------------------------- role tracking ("L"/"R"/"?")
@@ -215,6 +216,14 @@ func (c *ctx) cmpOps(name string) (ops [][2]string, deflt bool, hasDeflt bool) {
 					if b, ok := unparen(r.Results[0]).(*ast.BinaryExpr); ok && c.sameIdent(b.X, ps[1]) && c.sameIdent(b.Y, ps[2]) {
 						tok = b.Op.String()
 					}
+					// `return cmpNumberNumberF(op, conv(a), conv(b))`: the operands converted to numbers, in order
+					if name, call, ok := funcCall(r.Results[0]); ok && name == "cmpNumberNumberF" && len(call.Args) == 3 && c.sameIdent(call.Args[0], ps[0]) {
+						f1, c1, ok1 := funcCall(call.Args[1])
+						f2, c2, ok2 := funcCall(call.Args[2])
+						if ok1 && ok2 && f1 == f2 && len(c1.Args) == 1 && len(c2.Args) == 1 && c.sameIdent(c1.Args[0], ps[1]) && c.sameIdent(c2.Args[0], ps[2]) {
+							tok = "num:" + f1
+						}
+					}
 				}
 			}
 			ops = append(ops, [2]string{op, tok})
@@ -229,6 +238,16 @@ func (c *ctx) cmpOps(name string) (ops [][2]string, deflt bool, hasDeflt bool) {
 			}
 		}
 	}
+	// source order of the arms carries no meaning: list them in a fixed order
+	rank := map[string]int{"or": 0, "and": 1, "=": 2, "!=": 3, "<": 4, "<=": 5, ">": 6, ">=": 7}
+	sort.SliceStable(ops, func(i, j int) bool {
+		ri, oki := rank[ops[i][0]]
+		rj, okj := rank[ops[j][0]]
+		if oki && okj {
+			return ri < rj
+		}
+		return oki && !okj
+	})
 	if defaultArmFalse {
 		return ops, false, true
 	}
